@@ -295,6 +295,36 @@ def b_native(B):
                                    inputs={"nbytes": nbytes, "nc": nc, "fs": fs, "fileTimeSecs": claimed / fs})
     r = replay_cbin({}, "")
     B.case("compressed_stream_length_disagrees_with_metadata", not r["failed"], detail=r)
+    # several readers alive on the same recording while it grows / on two binaries sharing one metadata file: each reader keeps exposing
+    # exactly what it mapped (its own count, shape, duration), whatever the others found
+    import shutil
+    bads = []
+    for fs in (30000.0, 30003.0003):
+        d, b, raw = _mkfile(61 * 4 * 2 + 3, 4, fs, 200, 2, None)
+        try:
+            a = spikeglx.Reader(b, ignore_warnings=True)
+            na = a.ns
+            with open(b, "ab") as f:
+                f.write(np.random.default_rng(1).integers(0, 256, size=37 * 8 + 5, dtype=np.uint8).tobytes())
+            c = spikeglx.Reader(b, ignore_warnings=True)
+            other = os.path.join(d, "copy.imec0.ap.bin")
+            np.random.default_rng(2).integers(0, 256, size=17 * 8, dtype=np.uint8).tofile(other)
+            e = spikeglx.Reader(other, meta_file=__import__("pathlib").Path(b[:-3] + "meta"), ignore_warnings=True)
+            for name, rd, want in (("first reader (before the file grew)", a, 61), ("second reader (after)", c, (61 * 8 + 3 + 37 * 8 + 5) // 8), ("reader of another binary with the same metadata file", e, 17)):
+                try:
+                    ok = rd.ns == want == rd._raw.shape[0] and rd.shape == (want, 4) and abs(rd.rl - want / rd.fs) < 1e-9 and rd[want - 1, :].shape == (4,) and rd[:, :].shape[0] == want
+                except Exception as ex:
+                    ok = False
+                    name += " raised " + repr(ex)[:60]
+                if not ok:
+                    bads.append({"fs": fs, "reader": name, "ns": rd.ns, "mapped": rd._raw.shape[0], "frames_at_open": want})
+            if na != 61:
+                bads.append({"fs": fs, "reader": "first", "ns_at_open": na})
+            for rd in (a, c, e):
+                rd.close()
+        finally:
+            shutil.rmtree(d, ignore_errors=True)
+    B.case("several_readers_on_a_growing_recording", not bads, detail=bads[:4])
     # round trip of the count through the float duration (what open() stores and ns reads back)
     for _ in range(3000 if B.tier == "quick" else 100000):
         k = B.rng.randrange(1, 3 * 10 ** 9)
